@@ -16,10 +16,15 @@
    model is the same for every relabelling of the input (vertex classes relabelled with it).
    The model follows the code after commit a4bdb37 (a cut-off in expandValue sets singletonPrefixLength to the
    position where it lost, plus one); before it, model and code panicked on some graphs with vertex classes
-   (C01_search_former_panics_return).  Panic-freedom: see the end of this file. *)
+   (C01_search_former_panics_return).  C01_search_total: the model never returns Panic (every index and slice
+   bound of the search is in range, in particular currentBest[:len(op.value)] and generators[:len+1]); with the
+   fuel theorem the model returns Ok for every simple graph and admissible classes (C01_search_returns), so the
+   theorems hold without the proviso "on runs returning Ok", and C01_search_iso_iff is the statement of C01 in
+   full for the model: equal canonical graphs <=> isomorphic. *)
 From Coq Require Import List Arith ZArith Permutation.
 From Mamba Require Import Canon.Perm Canon.Iso Canon.Model Canon.Tree Canon.SearchModel Canon.SearchCells
-  Canon.SearchTarget Canon.SearchOrder Canon.SearchEquiv Canon.SearchInit Canon.SearchProofs Canon.SearchMax Canon.SearchInvar.
+  Canon.SearchTarget Canon.SearchOrder Canon.SearchEquiv Canon.SearchInit Canon.SearchProofs Canon.SearchMax Canon.SearchInvar
+  Canon.SearchTotal Canon.SearchFull.
 Import ListNotations.
 
 (* Whatever the fuel: if the search returns, the returned permutation is a permutation of
@@ -130,6 +135,44 @@ Theorem C01_search_canon_graph_invariant :
     h = h'.
 Proof. exact search_canon_graph_invariant. Qed.
 Print Assumptions C01_search_canon_graph_invariant.
+
+(* Totality: for every simple graph, all admissible vertex classes and every fuel the model does not return
+   Panic, the model of a Go index / slice-bound panic.  op.value is always exactly the certificate entries of the
+   first singletonPrefixLength positions (at most g.M() entries: currentBest[:len(op.value)] is within capacity);
+   every recorded generator lowers the number of sets of firstLeafOrbits (at most n - 1 generators); paths,
+   choices, permutations and union-find arrays are indexed within their lengths. *)
+Theorem C01_search_total :
+  forall (g : graph) (cls : option (list (list nat))) fuel,
+    simple g -> cls_ok (length g) cls -> canon_search fuel g cls <> Panic.
+Proof. intros g cls fuel Hg Hc. exact (canon_search_total g cls Hg Hc fuel). Qed.
+Print Assumptions C01_search_total.
+
+(* Hence, with the fuel theorem: from the fuel search_fuel n on, the model returns a result. *)
+Theorem C01_search_returns :
+  forall (g : graph) (cls : option (list (list nat))) fuel,
+    simple g -> cls_ok (length g) cls -> search_fuel (length g) <= fuel ->
+    exists p o gs, canon_search fuel g cls = Ok (p, o, gs).
+Proof.
+  intros g cls fuel Hg Hc Hf. destruct (canon_search_returns g cls Hg Hc fuel Hf) as [[[p o] gs] E]. exists p, o, gs. exact E.
+Qed.
+Print Assumptions C01_search_returns.
+
+(* C01 in full for the model of CanonicalIsomorph (no vertex classes, fuel search_fuel n): the labelling is a
+   permutation, the canonical graph is the same for every relabelling, and two simple graphs have the same
+   canonical graph if and only if they are isomorphic. *)
+Theorem C01_search_labelling_perm : forall g, simple g -> is_perm (length g) (search_labelling g) = true.
+Proof. exact search_labelling_perm. Qed.
+Print Assumptions C01_search_labelling_perm.
+
+Theorem C01_search_labelling_invariant : forall g p, simple g -> is_perm (length g) p = true ->
+  relabel (relabel g p) (search_labelling (relabel g p)) = relabel g (search_labelling g).
+Proof. exact search_labelling_invariant. Qed.
+Print Assumptions C01_search_labelling_invariant.
+
+Theorem C01_search_iso_iff : forall g h, simple g -> simple h ->
+  (relabel g (search_labelling g) = relabel h (search_labelling h) <-> iso g h).
+Proof. exact search_iso_iff. Qed.
+Print Assumptions C01_search_iso_iff.
 
 (* Non-vacuity: the search on the 6-cycle, with and without vertex classes, returns (fuel 100
    suffices; with fuel 3 the distinct result Fuel is returned). *)
